@@ -1750,6 +1750,22 @@ func (ex *Exec) execFor(p *Path, st *ast.ForStmt) []outcome {
 	ex.checkInvariants(p, invs, ord, "init", st.Pos())
 	ex.checkFrame(p, st.Pos(), "loop entry")
 	var outs []outcome
+	// entry values of the scalar variables the loop assigns (for the later-state cover below)
+	type entryVal struct {
+		o types.Object
+		t string
+	}
+	var entry []entryVal
+	for _, o := range modVars {
+		if _, isCell := p.cells[o]; isCell {
+			continue
+		}
+		if cur, ok := p.vars[o]; ok {
+			if b, isBasic := cur.Ty.Underlying().(*types.Basic); isBasic && b.Info()&(types.IsInteger|types.IsBoolean|types.IsString) != 0 {
+				entry = append(entry, entryVal{o, cur.T})
+			}
+		}
+	}
 	it := p.Clone()
 	ex.havocVars(it, modVars)
 	ex.advanceClock(it)
@@ -1767,6 +1783,43 @@ func (ex *Exec) execFor(p *Path, st *ast.ForStmt) []outcome {
 	if st.Cond != nil {
 		c := ex.eval(it, st.Cond)
 		it.Assume(c.T)
+		if len(invs) > 0 && ord > 0 && !ex.inContract() && len(entry) > 0 && os.Getenv("GOVC_NO_FOR_COVER") == "" {
+			// the counterpart, for `for` loops, of the later-iteration cover of range loops: under the havoc and the
+			// invariants the body must be reachable from a state in which some scalar the loop assigns differs from
+			// its value at loop entry; otherwise the invariants pin the loop head to the entry state, they are checked
+			// for the first iteration only and what follows the loop is proved for that case only
+			// the variables the post statement assigns (the loop counter) are the ones that must move; without a post
+			// statement, any assigned scalar
+			postVars := map[types.Object]bool{}
+			if st.Post != nil {
+				mv, _ := ex.assignedIn(st.Post)
+				for _, v := range mv {
+					for _, e := range entry {
+						if e.o == v {
+							postVars[v] = true
+						}
+					}
+				}
+			}
+			var diffs []string
+			for _, e := range entry {
+				if len(postVars) > 0 && !postVars[e.o] {
+					continue
+				}
+				if now, ok := it.vars[e.o]; ok && now.T != e.t {
+					diffs = append(diffs, not(eq(now.T, e.t)))
+				}
+			}
+			if len(diffs) > 0 {
+				later := it.Clone()
+				d := diffs[0]
+				if len(diffs) > 1 {
+					d = "(or " + strings.Join(diffs, " ") + ")"
+				}
+				later.Assume(d)
+				ex.addObl(later, fmt.Sprintf("%s#loop%d.cover.later_state", ex.funcKey, ord), "cover", "the loop body is reachable from a state other than the one at loop entry under the loop invariants", "false", st.Pos(), "")
+			}
+		}
 		c2 := ex.eval(exit, st.Cond)
 		exit.Assume(not(c2.T))
 	} else {
